@@ -9,11 +9,11 @@ CONSTANTS SlotDur = 3
  MaxTime = 26
  MaxFail = 1
  Interleave = FALSE
- MaxJump = 2
+ MaxJump = 1
  BVariants = {1}
- AttOffs = {0, 1}
+ AttOffs = {0}
  ProMenu = {1}
  SyncMenu = {2}
- Starts = {0, 4}
+ Starts = {0}
 INVARIANTS AtMostOnce OnlyAssigned NotEarly TickOrder TickNotEarly Complete TruthOK TickFresh FetchOnce FetchNotAfterTrigger OffInert
 CHECK_DEADLOCK FALSE
